@@ -14,15 +14,24 @@ import Hm.C10
 import Hm.C05
 import Hm.C08c
 import Hm.StoredBlock
+import Hm.C18
+import Hm.C03Grammar
+import Hm.C04Grammar
+import Hm.C03Whole
+import Hm.HeaderWf
 #print axioms C01_request_delivery_independent
 #print axioms C02_response_delivery_independent
+#print axioms C03_accept_sound
 #print axioms C03_accepted_prefix_not_rejected
 #print axioms C03_prefix_never_rejected
+#print axioms C03_request_line_complete
+#print axioms C03_request_line_sound
 #print axioms C04_framing_bad_content_length
 #print axioms C04_framing_chunked
 #print axioms C04_framing_content_length
 #print axioms C04_framing_none
 #print axioms C04_prefix_never_rejected
+#print axioms C04_status_line_sound
 #print axioms C05_chunk_delivery_independent
 #print axioms C05_roundtrip
 #print axioms C05_roundtrip_parse
@@ -39,6 +48,7 @@ import Hm.StoredBlock
 #print axioms C09_response_pipeline
 #print axioms C09_response_suffix_irrelevant
 #print axioms C10_response_roundtrip
+#print axioms C11_headers_reparse
 #print axioms C12_content_length
 #print axioms C12_no_trailer
 #print axioms C12_others
@@ -61,4 +71,7 @@ import Hm.StoredBlock
 #print axioms C17_chunk_size
 #print axioms C17_request_content_length
 #print axioms C17_status_code
+#print axioms C18_decode_case
+#print axioms C18_has_chunked_case
+#print axioms C18_header_tokens_case
 #print axioms C18_response_framing_case
